@@ -1,10 +1,258 @@
 import EpModel.Driver.Util
-/- `ext.*` and `spec.ext.*` operations (stub; filled in by the owner of this family). -/
+import EpModel.Model.Ipv6Exts
+import EpModel.Model.Ipv4Exts
+import EpModel.Spec.Rfc8200Order
+/- `ext.*` and `spec.ext.*` operations: the extension header chain walkers (property C12).
+
+   Textual value `<exts>`: six comma separated slots in the order
+     hop-by-hop , destination options , routing , final destination options , fragment , auth
+   each `-` (absent) or
+     raw slots   `<next_header>:<payload hex>`
+     fragment    `<next_header>:<fragment offset>:<more 0|1>:<identification>`
+     auth        `<next_header>:<spi>:<sequence number>:<raw icv hex>`
+   A final destination options slot without a routing slot is not representable in the Rust
+   type (`Ipv6RoutingExtensions`) and is `bad-op` on both sides.  `<auth>` of the `ext.v4.*`
+   operations is a single auth slot. -/
 namespace EpModel.Driver.Ext
-open EpModel EpModel.Driver
+open EpModel EpModel.Driver EpModel.Ext
+
+def argU8 (s : String) : Option Nat := do
+  let n ← s.toNat?
+  if n < 256 then some n else none
+
+def argU32 (s : String) : Option Nat := do
+  let n ← s.toNat?
+  if n < 4294967296 then some n else none
+
+def parseRaw (s : String) : Option (Option Raw) :=
+  if s == "-" then some none else
+  match s.splitOn ":" with
+  | [nh, pl] => do
+    let nh ← argU8 nh
+    let pl ← argHex pl
+    match Raw.newRaw nh pl with
+    | .ok r => some (some r)
+    | .error _ => none
+  | _ => none
+
+def parseFrag (s : String) : Option (Option Frag) :=
+  if s == "-" then some none else
+  match s.splitOn ":" with
+  | [nh, off, more, ident] => do
+    let nh ← argU8 nh
+    let off ← off.toNat?
+    if off > 8191 then none
+    let more ← (if more == "1" then some true else if more == "0" then some false else none)
+    let ident ← argU32 ident
+    some (some { nextHeader := nh, fragmentOffset := off, moreFragments := more, identification := ident })
+  | _ => none
+
+def parseAuth (s : String) : Option (Option Auth) :=
+  if s == "-" then some none else
+  match s.splitOn ":" with
+  | [nh, spi, seq, icv] => do
+    let nh ← argU8 nh
+    let spi ← argU32 spi
+    let seq ← argU32 seq
+    let icv ← argHex icv
+    match Auth.new nh spi seq icv with
+    | .ok a => some (some a)
+    | .error _ => none
+  | _ => none
+
+def parseExts (s : String) : Option Exts :=
+  match s.splitOn "," with
+  | [hop, dest, route, final, frag, auth] => do
+    let hop ← parseRaw hop
+    let dest ← parseRaw dest
+    let route ← parseRaw route
+    let final ← parseRaw final
+    let frag ← parseFrag frag
+    let auth ← parseAuth auth
+    let routing : Option Routing ← (match route, final with
+      | some r, f => some (some { routing := r, finalDestinationOptions := f })
+      | none, none => some none
+      | none, some _ => none)
+    some { hopByHopOptions := hop, destinationOptions := dest, routing := routing, fragment := frag, auth := auth }
+  | _ => none
+
+def showRaw : Option Raw → String
+  | none => "-"
+  | some r => s!"{r.nextHeader}:{hexOfBytes r.payload}"
+
+def showFrag : Option Frag → String
+  | none => "-"
+  | some f => s!"{f.nextHeader}:{f.fragmentOffset}:{if f.moreFragments then 1 else 0}:{f.identification}"
+
+def showAuth : Option Auth → String
+  | none => "-"
+  | some a => s!"{a.nextHeader}:{a.spi}:{a.sequenceNumber}:{hexOfBytes a.rawIcv}"
+
+def showExts (e : Exts) : String :=
+  joinWith "," [showRaw e.hopByHopOptions, showRaw e.destinationOptions,
+    showRaw (e.routing.map (·.routing)), showRaw e.finalDest, showFrag e.fragment, showAuth e.auth]
+
+def showWalkErr : WalkErr → String
+  | .hopByHopNotAtStart => "HopByHopNotAtStart"
+  | .extNotReferenced n => s!"ExtNotReferenced({n})"
+
+def showLayer : Layer → String
+  | .ipv6ExtHeader => "Ipv6ExtHeader"
+  | .ipv6FragHeader => "Ipv6FragHeader"
+  | .ipAuthHeader => "IpAuthHeader"
+  | .ipv6HopByHopHeader => "Ipv6HopByHopHeader"
+  | .ipv6DestOptionsHeader => "Ipv6DestOptionsHeader"
+  | .ipv6RouteHeader => "Ipv6RouteHeader"
+
+def showLenErr (e : LenError) : String :=
+  s!"len(req={e.requiredLen},len={e.len},src=Slice,layer={showLayer e.layer},off={e.layerStartOffset})"
+
+def showSliceErr : SliceErr → String
+  | .len e => showLenErr e
+  | .content .hopByHopNotAtStart => "content(HopByHopNotAtStart)"
+  | .content (.ipAuth .zeroPayloadLen) => "content(IpAuth(ZeroPayloadLen))"
+
+def showAuthSliceErr : AuthSliceErr → String
+  | .len e => showLenErr e
+  | .content .zeroPayloadLen => "content(ZeroPayloadLen)"
+
+def showWalk : Except (Fault WalkErr) Nat → String
+  | .ok n => s!"ok({n})"
+  | .error .panic => "panic"
+  | .error (.err e) => s!"err({showWalkErr e})"
+
+def showWrite : Bytes × Except (Fault WalkErr) Unit → String
+  | (out, .ok ()) => s!"ok({hexOfBytes out})"
+  | (_, .error .panic) => "panic"
+  | (out, .error (.err e)) => s!"err({showWalkErr e},written={hexOfBytes out})"
+
+def showFromSlice (b : Bytes) : Except (Fault SliceErr) (Exts × Nat × Bytes) → String
+  | .ok (e, next, rest) =>
+    s!"ok({showExts e},next={next},rest={showWin (b.length - rest.length) rest.length},header_len={e.headerLen})"
+  | .error .panic => "panic"
+  | .error (.err e) => s!"err({showSliceErr e})"
+
+def showFromSlice4 (b : Bytes) : Except (Fault AuthSliceErr) (Exts4 × Nat × Bytes) → String
+  | .ok (e, next, rest) =>
+    s!"ok({showAuth e.auth},next={next},rest={showWin (b.length - rest.length) rest.length},header_len={e.headerLen})"
+  | .error .panic => "panic"
+  | .error (.err e) => s!"err({showAuthSliceErr e})"
+
+def showKind : Spec.Ext.Kind → String
+  | .hopByHop => "hop" | .destOpts => "dest" | .routing => "route" | .fragment => "frag"
+  | .auth => "auth" | .esp => "esp" | .finalDestOpts => "final"
 
 def run (op : String) (args : List String) : Option String :=
   match op, args with
+  | "ext.set_next", [e, n] => do
+      let e ← parseExts e; let n ← argU8 n
+      let (e', first) := e.setNextHeaders n
+      pure s!"first={first} {showExts e'}"
+  | "ext.next_header", [e, first] => do
+      let e ← parseExts e; let first ← argU8 first
+      pure (showWalk (e.nextHeader first))
+  | "ext.write", [e, first] => do
+      let e ← parseExts e; let first ← argU8 first
+      pure (showWrite (e.write first))
+  | "ext.header_len", [e] => do
+      let e ← parseExts e
+      pure (toString e.headerLen)
+  | "ext.is_frag", [e] => do
+      let e ← parseExts e
+      pure (toString e.isFragmentingPayload)
+  | "ext.from_slice", [first, h] => do
+      let first ← argU8 first; let b ← argHex h
+      pure (showFromSlice b (Exts.fromSlice first b))
+  | "ext.from_slice_lax", [first, h] => do
+      let first ← argU8 first; let b ← argHex h
+      match Exts.fromSliceLax first b with
+      | .ok (e, next, rest, err) =>
+        let es := match err with
+          | none => "none"
+          | some (er, layer) => s!"some({showSliceErr er},{showLayer layer})"
+        pure s!"({showExts e},next={next},rest={showWin (b.length - rest.length) rest.length},header_len={e.headerLen},err={es})"
+      | .error _ => pure "panic"
+  -- write, then from_slice of (written ++ tail); `none` when write fails
+  | "ext.roundtrip", [e, first, tail] => do
+      let e ← parseExts e; let first ← argU8 first; let tail ← argHex tail
+      match e.write first with
+      | (out, .ok ()) => pure (showFromSlice (out ++ tail) (Exts.fromSlice first (out ++ tail)))
+      | (_, .error .panic) => pure "panic"
+      | (_, .error (.err _)) => pure "none"
+  -- set_next_headers, then next_header and write from the returned first number
+  | "ext.link_walk", [e, n] => do
+      let e ← parseExts e; let n ← argU8 n
+      let (e', first) := e.setNextHeaders n
+      pure s!"first={first} {showExts e'} walk={showWalk (e'.nextHeader first)} write={showWrite (e'.write first)}"
+  | "ext.v4.roundtrip", [a, first, tail] => do
+      let a ← parseAuth a; let first ← argU8 first; let tail ← argHex tail
+      match (Exts4.mk a).write first with
+      | (out, .ok ()) => pure (showFromSlice4 (out ++ tail) (Exts4.fromSlice first (out ++ tail)))
+      | (_, .error .panic) => pure "panic"
+      | (_, .error (.err _)) => pure "none"
+  | "ext.v4.link_walk", [a, n] => do
+      let a ← parseAuth a; let n ← argU8 n
+      let (e', first) := (Exts4.mk a).setNextHeaders n
+      pure s!"first={first} {showAuth e'.auth} walk={showWalk (e'.nextHeader first)} write={showWrite (e'.write first)}"
+  | "ext.v4.set_next", [a, n] => do
+      let a ← parseAuth a; let n ← argU8 n
+      let (e', first) := (Exts4.mk a).setNextHeaders n
+      pure s!"first={first} {showAuth e'.auth}"
+  | "ext.v4.next_header", [a, first] => do
+      let a ← parseAuth a; let first ← argU8 first
+      pure (showWalk ((Exts4.mk a).nextHeader first))
+  | "ext.v4.write", [a, first] => do
+      let a ← parseAuth a; let first ← argU8 first
+      pure (showWrite ((Exts4.mk a).write first))
+  | "ext.v4.header_len", [a] => do
+      let a ← parseAuth a
+      pure (toString (Exts4.mk a).headerLen)
+  | "ext.v4.from_slice", [first, h] => do
+      let first ← argU8 first; let b ← argHex h
+      pure (showFromSlice4 b (Exts4.fromSlice first b))
+  -- IpHeaders::set_next_headers: ether type, the protocol / next_header field of the IP header, the extensions
+  | "ext.ip_set_next", [v, e, n] => do
+      let n ← argU8 n
+      let h : IpHdrs ← (if v == "v4" then do let a ← parseAuth e; pure (IpHdrs.ipv4 255 ⟨a⟩)
+                         else if v == "v6" then do let e ← parseExts e; pure (IpHdrs.ipv6 255 e)
+                         else none)
+      match h.setNextHeaders n with
+      | (.ipv4 p x, et) => pure s!"ether={et} first={p} {showAuth x.auth}"
+      | (.ipv6 p x, et) => pure s!"ether={et} first={p} {showExts x}"
+  -- NetHeaders::try_set_next_headers
+  | "ext.net_set_next", [v, e, n] => do
+      let n ← argU8 n
+      let h : NetHdrs ← (if v == "v4" then do let a ← parseAuth e; pure (NetHdrs.ip (IpHdrs.ipv4 255 ⟨a⟩))
+                          else if v == "v6" then do let e ← parseExts e; pure (NetHdrs.ip (IpHdrs.ipv6 255 e))
+                          else if v == "arp" && e == "-" then pure NetHdrs.arp
+                          else none)
+      match h.trySetNextHeaders n with
+      | .ok (.ip (.ipv4 p x), et) => pure s!"ok(ether={et}) first={p} {showAuth x.auth}"
+      | .ok (.ip (.ipv6 p x), et) => pure s!"ok(ether={et}) first={p} {showExts x}"
+      | .ok (.arp, _) => none
+      | .error .arpHeader => pure "err(ArpHeader)"
+  -- IpHeaders::next_header
+  | "ext.ip_next_header", [v, e, first] => do
+      let first ← argU8 first
+      let h : IpHdrs ← (if v == "v4" then do let a ← parseAuth e; pure (IpHdrs.ipv4 first ⟨a⟩)
+                         else if v == "v6" then do let e ← parseExts e; pure (IpHdrs.ipv6 first e)
+                         else none)
+      match h.nextHeader with
+      | .ok n => pure s!"ok({n})"
+      | .error .panic => pure "panic"
+      | .error (.err (.ipv4Exts e)) => pure s!"err(Ipv4Exts({showWalkErr e}))"
+      | .error (.err (.ipv6Exts e)) => pure s!"err(Ipv6Exts({showWalkErr e}))"
+  -- reference semantics: the RFC 8200 recommended order (kinds of the present slots, in order)
+  | "spec.ext.order", [p] => do
+      -- p: six characters 0/1, presence of hop,dest,route,final,frag,auth
+      let cs := p.toList
+      if cs.length ≠ 6 ∨ cs.any (fun c => c ≠ '0' ∧ c ≠ '1') then none
+      let pres : Spec.Ext.Kind → Bool := fun k => match k with
+        | .hopByHop => cs.getD 0 '0' == '1' | .destOpts => cs.getD 1 '0' == '1'
+        | .routing => cs.getD 2 '0' == '1' | .finalDestOpts => cs.getD 3 '0' == '1'
+        | .fragment => cs.getD 4 '0' == '1' | .auth => cs.getD 5 '0' == '1' | .esp => false
+      let ks := Spec.Ext.rfc8200Order.filter pres
+      pure ("[" ++ joinWith "," (ks.map (fun k => s!"{showKind k}:{k.ipNumber}")) ++ "]")
   | _, _ => none
 
 end EpModel.Driver.Ext
